@@ -4,6 +4,9 @@ import json, os
 here = os.path.dirname(os.path.dirname(os.path.abspath(__file__)))
 TECH = "deterministic simulation with fault injection"
 claimed = {
+ "C14": ("exploration", "seeded search over the compression/verification matrix, GET/HEAD/PUT for chunks and indexes (incl. chained index servers), scripted server response sequences (reset, 5xx, short body, response past the time-out, then served/404/4xx), error-retry values and back-off bases for the real HTTP client and handlers over an in-process transport in fake time, and casync-protocol sessions over a pipe with fragmentation and mid-message cuts; oracle: data byte-identical, missing vs failed reported truthfully, transient runs below the budget invisible, attempt count and simulated back-off time exactly as documented",
+         "sampling; TLS/auth/real sockets not exercised; mismatched client/server compression settings not generated",
+         TECH + " (scripted transport faults in fake time, real client and server code)"),
  "C03": ("fault_enumeration", "for LocalStore, the real HTTP client/handler pair over an in-process transport and the casync protocol client/server over a pipe, under every compression/verification setting and seven wrapper stacks, the stored object of a chunk is corrupted in every enumerated way (every byte position and every truncation length for objects <= 512 bytes, replacement by other valid objects/frames/raw data/garbage, junk before/after, corrupted cache entry) and fetched through a fresh stack; extract and cat pipelines run over a poisoned store; oracle: error or data hashing to the requested ID",
          "exhaustive over positions/lengths for small stored objects, sampled for larger; S3 and SFTP are not exercised; flips of the two zstd content-size-flag bits are skipped (they make the pinned zstd decoder allocate up to 64 GiB before rejecting the frame)",
          TECH + " (stored-object fault enumeration over real stores and wrapper stacks, simulated transports)"),
